@@ -2,6 +2,7 @@
 
 use crate::drive::fronts::*;
 use crate::drive::history::*;
+use crate::drive::net::Verdict;
 use crate::drive::*;
 use crate::gen;
 use crate::props::c08;
@@ -71,7 +72,57 @@ pub fn judge(h: &History, recs: &[StepRec]) -> Result<u32, Failure> {
     let case = || h.json();
     let (p, g) = h.cfg.board;
     let mut nt = 0;
+    // the network's own view of "the level it last commanded": the EIRP of the TXPower index (other
+    // than 15 = keep) of the last LinkADRReq block the device acknowledged completely, decoded from
+    // its answers with the reference codec — not read back from the device. None = nothing commanded
+    // in this session yet, or the view was lost (answers dropped, radio fault).
+    let fixed = reg.fixed();
+    let mut net_level: Option<i32> = None;
+    let mut awaiting: Option<Vec<super::c08::Req>> = None;
     for r in recs {
+        if matches!(r.step, Step::Join(_) | Step::JoinAbp) || r.trace.iter().any(|e| matches!(e, Ev::Fault(_))) {
+            net_level = None;
+            awaiting = None;
+        }
+        if let Some(reqs) = awaiting.take() {
+            if let Some(t) = r.txs.iter().find(|t| !t.join) {
+                let answers: Vec<u8> = match &t.view {
+                    Some(v) if v.fport == Some(0) => t.plain.clone().unwrap_or_default(),
+                    Some(v) => v.fopts.clone(),
+                    None => vec![],
+                };
+                let (ans, _) = verif_core::oracle::refcodec::split_cmds(&answers, true);
+                let exp = super::c08::expected_answers(&reqs, fixed);
+                let mut lost = ans.len() < exp.len() || exp.iter().zip(ans.iter()).any(|(e, a)| e.0 != a.0);
+                if !lost {
+                    let mut i = 0;
+                    while i < exp.len() {
+                        if exp[i].0 == 0x03 {
+                            let mut j = i;
+                            while j + 1 < exp.len() && exp[j + 1].0 == 0x03 && exp[j + 1].1 == exp[j].1 + 1 {
+                                j += 1;
+                            }
+                            if let (Some(bits), super::c08::Req::LinkAdr { txp, .. }) = (ans[i].1.first(), &reqs[exp[j].1]) {
+                                if *bits == 0x07 && *txp != 15 {
+                                    match reg.tx_power_eirp(*txp) {
+                                        Some(e) => net_level = Some(e as i32),
+                                        None => lost = true,
+                                    }
+                                }
+                            }
+                            i = j + 1;
+                        } else {
+                            i += 1;
+                        }
+                    }
+                }
+                if lost {
+                    net_level = None;
+                }
+            } else {
+                awaiting = Some(reqs); // no uplink in this record (idle listening): still owed
+            }
+        }
         if let Outcome::Panic(pm) = &r.outcome {
             if pm.contains(HANG_MSG) {
                 return Err(Failure::new("selection-terminates", case(), format!("channel selection did not terminate within the RNG budget\n{}", render(recs, 3))).with_fp("selection-hang"));
@@ -93,11 +144,31 @@ pub fn judge(h: &History, recs: &[StepRec]) -> Result<u32, Failure> {
                     nt += 1;
                 }
             }
+            if !join {
+                if let Some(l) = net_level {
+                    limits.push((l, "the level the network last commanded (network view)"));
+                    nt += 1;
+                }
+            }
             for (l, what) in limits {
                 if pw > l {
                     return Err(Failure::new("tx-power", case(), format!("step {}.{}: conducted power {pw} dBm exceeds {what} ({l} dBm); board max {p} dBm, gain {g} dBi, commanded {:?}\n{}", r.index, r.sub, r.snap_before.tx_power, render(std::slice::from_ref(r), 1))).with_fp(format!("power-above/{}", what.split(' ').take(3).collect::<Vec<_>>().join("-"))));
                 }
             }
+        }
+        // requests accepted in RX1/RX2 of this record are answered by the next uplink
+        if let Some(d) = r.deliveries.iter().find(|d| matches!(d.slot, Slot::Rx1 | Slot::Rx2) && matches!(d.verdict, Verdict::Accept { .. })) {
+            if let Verdict::Accept { fopts, fport, plain, .. } = &d.verdict {
+                let mut reqs = super::c08::parse_reqs(fopts);
+                if *fport == Some(0) {
+                    reqs.extend(super::c08::parse_reqs(plain));
+                }
+                awaiting = if reqs.iter().any(|q| matches!(q, super::c08::Req::LinkAdr { .. })) { Some(reqs) } else { None };
+            }
+        }
+        if r.deliveries.iter().any(|d| matches!(d.verdict, Verdict::SizeDontCare)) {
+            net_level = None;
+            awaiting = None;
         }
     }
     Ok(nt)
